@@ -162,7 +162,7 @@ func scenUI(r *Run, o uiOpts) {
 	t := r.W
 	// some racing towns carry strings that the scrubber really alters (tabs, escapes): code that
 	// treats cleaning as a write then writes to documents shared between goroutines
-	tn := buildTown(r, TownOpts{Hostile: o.hostile || (o.racing && t.Chance(1, 3)), RichLinks: o.rich || (o.racing && t.Chance(1, 3)), Paged: o.paged, Markdown: o.racing, DeadParents: o.racing})
+	tn := buildTown(r, TownOpts{Hostile: o.hostile || (o.racing && t.Chance(1, 3)), RichLinks: o.rich || (o.racing && t.Chance(1, 3)), Paged: o.paged, Markdown: o.racing, DeadParents: o.racing, QueryPages: o.paged && t.Chance(1, 3)})
 	w, h := 80, 24
 	if o.sizes || t.Chance(1, 3) {
 		w, h = drawWidth(r, o), drawHeight(r, o)
